@@ -332,6 +332,11 @@ def python_half(ctx):
                 import xarray as xr
                 t = np.array(["2020-01-01T00:00:00", "2020-01-01T03:00:00"], dtype="datetime64[s]")
                 da = xr.concat([da, da], dim=xr.DataArray(t, dims="time", name="time")).expand_dims(site=[7], axis=1)
+            # non-index (scalar) coordinates left behind by a selection - isel(dir=k) / sel(site=..) keep the label as a 0-d
+            # coordinate: a frequency spectrum that still carries a scalar `dir` is a 1-D spectrum like any other
+            if rng.choice(("none", "none", "scalars")) == "scalars":
+                sc_ = {k: val for k, val in (("dir", 90.0), ("site", 3), ("lon", 170.5), ("lat", -40.0)) if k not in da.dims}
+                da = da.assign_coords(**sc_)
             try:
                 out = classify(call(da, v["op"], v["arg"]))
             except ValueError:
@@ -350,6 +355,7 @@ def python_half(ctx):
     for v, (out, lead) in zip(vecs, outs):
         da = representative(v["nf"], v["dirs"], v["spectrum"], rng2)
         rng2.choice(("none", "none", "time1", "time2site1"))       # keep the generator in step with realise()
+        rng2.choice(("none", "none", "scalars"))
         if v["op"] == "hmax" and v["spectrum"] == "zero" and lead == "time2site1" and out == "nan":
             ctx.replayed()      # with a real time axis the wave count of a zero-energy record is 0/0: degenerate, NaN allowed
             continue
